@@ -359,3 +359,13 @@ def run(ck):
                   "operands ordered by a dominating test" if ok else
                   "`%s` is signed (%s) and becomes an unsigned count; nothing on the path establishes %s >= %s" % (t, ty, lhs, rhs))
     ck.note("C03-R6: %d signed differences used as counts" % nsd)
+
+    # ---------------- facts shared with other properties ----------------
+    ck.borrow("C05", ["C05-R4"], "C03-R9",
+              "the response buffer is never written past its end: DynamicStreamBuf::overflow stores a byte only while data_.size() < maxSize_ "
+              "and reserve() clamps to maxSize_ (an error reply that quotes the request can be as large as the request makes it)",
+              key_pred=lambda k: k.startswith("DynamicStreamBuf::"), min_instances=2)
+    ck.borrow("C01", ["C01-R2"], "C03-R10",
+              "what a step stores into the message while it may still be rolled back and re-parsed does not accumulate: a header block "
+              "delivered byte by byte re-runs the step once per byte, so an appending store retains memory far beyond the request size limit",
+              min_instances=4)
